@@ -596,6 +596,8 @@ func (m *MdnsManager) processMdnsEntry(elements map[string]string, name, host st
 		// avahi sends an item for each network address, merge them
 
 		// we assume only network addresses are added
+		// the entry is shared with the goroutines that copy the entries for a report
+		m.mux.Lock()
 		for _, address := range addresses {
 			// only add if it is not added yet
 			isNewElement := true
@@ -612,6 +614,7 @@ func (m *MdnsManager) processMdnsEntry(elements map[string]string, name, host st
 				updated = true
 			}
 		}
+		m.mux.Unlock()
 
 		if updated {
 			m.setMdnsEntry(ski, entry)
